@@ -1,5 +1,6 @@
 import SnootyVerif.Gen.Schema
 import SnootyVerif.Proofs.Schema
+import SnootyVerif.Proofs.Visitor
 /-!
 # C04 — every emitted AST is well-formed and serialisable
 
@@ -159,5 +160,26 @@ example : wf Gen.schema false "Root" withSet = false := by decide
 /-- a node without a start line: `self.span[0]` raises -/
 example : serialize (.mk "Transition" "transition" (.tuple .nil) .nil) = .error .IndexError := rfl
 example : serialize (.mk "Transition" "transition" .none .nil) = .error .TypeError := rfl
+
+/-! ## bookkeeping nodes do not escape the visitor
+
+`_DefinitionListTerm` is pushed for a docutils `term` and must be consumed by the departure (its children become
+`DefinitionListItem.term`). On the model of the visitor's node stack (`Model/Visitor.lean`, tied to the code by the
+path translator and the recorded walks of `./check C01`): whenever terms are handed to definition list items only, the tree
+the walk returns contains no node of that kind anywhere — neither among children nor inside a `term` list. -/
+section
+open SnootyVerif.Visitor
+
+theorem visitor_no_stray_term (id : Nat) (kind : AKind) (cs : List DNode) (hk : kind ≠ .term)
+    (hb : balancedL cs = true) (ht : termsOkL kind cs = true) :
+    ∃ t, walkDoc (.mk id 1 .normal kind false cs) = .ok t ∧ t.clean = true :=
+  ⟨_, walkDoc_spec id kind cs hb ht, spec_clean id kind cs hk ht⟩
+
+/-- a definition list item whose term holds text: the term node itself is gone, its text is in `term` -/
+example : (walkDoc (.mk 0 1 .normal .parent false [.mk 1 1 .normal .dlItem false
+    [.mk 2 1 .normal .term false [.mk 3 1 .normal .leaf false []], .mk 4 1 .normal .parent false []]])).toOption.map
+      (fun t => (t.clean, t.cs.map (fun c => (c.term.map T.id, c.cs.map T.id)))) = some (true, [([3], [4])]) := by decide
+
+end
 
 end SnootyVerif.C04
